@@ -137,6 +137,16 @@ class _MultiCallable:
         raise NotImplementedError('FakeChannel.future')
 
 
+# api-core's wrap_errors dispatches on the grpc multicallable ABCs
+class _UU(_MultiCallable, grpc.UnaryUnaryMultiCallable): pass
+class _US(_MultiCallable, grpc.UnaryStreamMultiCallable): pass
+class _SU(_MultiCallable, grpc.StreamUnaryMultiCallable): pass
+class _SS(_MultiCallable, grpc.StreamStreamMultiCallable): pass
+
+
+_SYNC_MC = dict(unary_unary=_UU, unary_stream=_US, stream_unary=_SU, stream_stream=_SS)
+
+
 class FakeChannel(grpc.Channel):
     def __init__(self, clock=None):
         self.log = []
@@ -158,7 +168,7 @@ class FakeChannel(grpc.Channel):
     def _mk(self, kind, method, request_serializer=None, response_deserializer=None,
             _registered_method=False):
         self.created.append((kind, method))
-        return _MultiCallable(self, kind, method, request_serializer, response_deserializer)
+        return _SYNC_MC[kind](self, kind, method, request_serializer, response_deserializer)
 
     def unary_unary(self, *a, **k): return self._mk('unary_unary', *a, **k)
     def unary_stream(self, *a, **k): return self._mk('unary_stream', *a, **k)
@@ -172,6 +182,9 @@ class FakeChannel(grpc.Channel):
 
 
 # -------------------------------------------------------------- aio channel
+
+_real_sleep = asyncio.sleep
+
 
 async def _collect(request_iterator):
     out = []
@@ -195,10 +208,22 @@ class _AioCall:
         self._reply = None
         self._items = None
         self._err = None
+        self._task = None
+        try:
+            asyncio.get_running_loop()
+            self._task = asyncio.ensure_future(self._run())
+            self._task.add_done_callback(lambda t: t.cancelled() or t.exception())
+        except RuntimeError:
+            pass
 
     async def _start(self):
-        if self._started:
-            return
+        # like a real grpc.aio call, the RPC starts when the multicallable is
+        # invoked (a task on the running loop), not when the call is awaited
+        if self._task is None:
+            self._task = asyncio.ensure_future(self._run())
+        await asyncio.shield(self._task)
+
+    async def _run(self):
         self._started = True
         mc = self.mc
         if mc.kind.startswith('stream_'):
@@ -230,6 +255,8 @@ class _AioCall:
         # a real call surfaces connection-time failures here
         if not self.mc.kind.startswith('stream_'):
             await self._start()
+        else:
+            await _real_sleep(0)
 
     def __aiter__(self):
         async def gen():
@@ -273,6 +300,15 @@ class _AioMultiCallable:
         return _AioCall(self, request, kw)
 
 
+class _AUU(_AioMultiCallable, aio.UnaryUnaryMultiCallable): pass
+class _AUS(_AioMultiCallable, aio.UnaryStreamMultiCallable): pass
+class _ASU(_AioMultiCallable, aio.StreamUnaryMultiCallable): pass
+class _ASS(_AioMultiCallable, aio.StreamStreamMultiCallable): pass
+
+
+_AIO_MC = dict(unary_unary=_AUU, unary_stream=_AUS, stream_unary=_ASU, stream_stream=_ASS)
+
+
 class FakeAioChannel(aio.Channel):
     def __init__(self, clock=None):
         self.log = []
@@ -288,7 +324,7 @@ class FakeAioChannel(aio.Channel):
     def _mk(self, kind, method, request_serializer=None, response_deserializer=None,
             _registered_method=False):
         self.created.append((kind, method))
-        return _AioMultiCallable(self, kind, method, request_serializer, response_deserializer)
+        return _AIO_MC[kind](self, kind, method, request_serializer, response_deserializer)
 
     def unary_unary(self, *a, **k): return self._mk('unary_unary', *a, **k)
     def unary_stream(self, *a, **k): return self._mk('unary_stream', *a, **k)
